@@ -13,6 +13,7 @@ from .. import core
 from ..core import Family, cps
 
 ID = "C16"
+READY = True
 LEAN_TARGETS = ["NauyacaVerif.Props.C16"]
 THEOREMS = [f"NauyacaVerif.C16.{t}" for t in
             ("redirect_bound", "redirect_scheme", "redirect_no_fake_final", "redirect_follows", "no_follow_single")]
